@@ -27,10 +27,17 @@
   (`C20_inv_preserved`: the new tree is structurally valid in the sense of C04).
 
   Not proved here: the parse route (serialise, then parse: C01 / C02 with the tokenizer contract;
-  checked on the implementation by the `ffixed` suite), and construction programs other than the
-  three given orders.
+  checked on the implementation by the `ffixed` suite).
+
+  ANY construction order (second half of the file): `Model/FanyorderSpec.lean` defines construction
+  programs (steps `create`, `append`, `prepend`, `insertAfter`, `insertBefore`, `anyAppend`,
+  `setAttribute`, `setNamespace`; nodes named by the index of the `create` step that made them)
+  with two interpreters, `Prog.runImpl` (the forest model's functions) and `Prog.runSpec` (the
+  ordered-tree specification of C05: cut, graft, merge adjacent text; entries replaced in place or
+  added at the end of their block).
 -/
 import XotModel.Lemmas.FfixedValid
+import XotModel.Lemmas.FanyorderRun
 
 namespace XotModel.Props
 open XotModel
@@ -149,5 +156,191 @@ example :
     ({ roots := [.node 0 (.element 2) [.node 1 (.text ['t']) []], .node 2 (.comment []) []], next := 3 } : Forest).inv = true ∧
     ({ before := [.comment ['a'], .pi 17 none], documentElement := { name := 2, prefixes := [(2, 3), (0, 2)], attributes := [(3, ['v']), (4, [])], children := [.text ['x'], .element 3 [(2, 2)] [(3, ['w'])] [.comment [], .text ['y']], .text ['z']] }, after := [.pi 17 (some ['q']), .comment ['b']] } : FDocument).wf true = true := by
   decide
+
+/-! ## Every construction order
+
+  `Prog.State` = store + the nodes created so far.  `Prog.FlagsOk f`: text consolidation has never
+  been switched off, or it is off (in both cases the store holds no adjacent text nodes while
+  consolidation is on, which is the scope of the C05 theorems).  `Prog.InvAlong s P`: the C04
+  invariant holds in every state the implementation passes through while running `P` from `s`.
+  `Prog.inScope s P`: no step is an `any_append` of an attribute / namespace node that is still
+  attached to an element (the specification only attaches parentless entry nodes).
+
+  On the hypothesis `InvAlong`.  It is the conclusion of C04 (`C04_step_all`: every call of the
+  forest model preserves `Forest.Inv`), so it holds of every run from a store satisfying
+  `Forest.Inv`.  It is a hypothesis here, and the theorems carry `_partial`, for a reason of
+  proof engineering only: the helper-lemma families of C04 / C06 (`Lemmas/Finv*`, `Fatom*`) and of
+  C05 (`Lemmas/Fspec*`) define some twenty lemmas under the same names (`handles_node`,
+  `mapAt_of_not_mem`, `validList_cons`, …) and cannot be imported into one file.  For the same
+  reason "a step the specification accepts is answered `ok`" (C06: after the argument checks
+  nothing can go wrong) is not available here; the refusal side is stated as far as C05 gives it. -/
+
+open XotModel.Prog
+
+/-- **Refinement.**  A program every step of which the implementation answers `ok` is well-formed
+    for the ordered-tree specification, and the specification's final state IS the
+    implementation's: same trees, same node names (handles), same created nodes. -/
+theorem C20_any_order_partial (s : State) (P : Program) (hinv : InvAlong s P) (hfl : FlagsOk s.forest)
+    (hsc : inScope s P = true) (hok : (runImpl s P).2 = .ok) :
+    runSpec s P = some (runImpl s P).1 :=
+  run_refine P s hinv hfl hsc hok
+
+/-- … in particular the content (names forgotten): node kinds and order, element names, attributes
+    and namespace declarations in order, merged text. -/
+theorem C20_any_order_content_partial (f : Forest) (P : Program) (hinv : InvAlong { forest := f } P)
+    (hfl : FlagsOk f) (hsc : inScope { forest := f } P = true) (hok : (runImplF f P).2 = .ok) :
+    (runSpecF f P).map Forest.content = some (runImplF f P).1.content := by
+  unfold runSpecF runImplF at *
+  rw [run_refine P _ hinv hfl hsc hok]
+  rfl
+
+/-- **Any two orders.**  Two programs that the specification takes to stores with the same content
+    are taken to stores with the same content by the implementation — whatever the order of their
+    steps, however the text was cut into pieces, whenever the attributes were set. -/
+theorem C20_orders_agree_partial (f : Forest) (P1 P2 : Program) (hfl : FlagsOk f)
+    (hinv1 : InvAlong { forest := f } P1) (hinv2 : InvAlong { forest := f } P2)
+    (hsc1 : inScope { forest := f } P1 = true) (hsc2 : inScope { forest := f } P2 = true)
+    (hok1 : (runImplF f P1).2 = .ok) (hok2 : (runImplF f P2).2 = .ok)
+    (hspec : (runSpecF f P1).map Forest.content = (runSpecF f P2).map Forest.content) :
+    (runImplF f P1).1.content = (runImplF f P2).1.content := by
+  rw [C20_any_order_content_partial f P1 hinv1 hfl hsc1 hok1,
+    C20_any_order_content_partial f P2 hinv2 hfl hsc2 hok2] at hspec
+  exact Option.some.inj hspec
+
+/-- The same for the subtrees of two designated nodes (e.g. the two document nodes): equal in the
+    specification's final states ⇒ equal in the implementation's.  Equal erased trees are
+    `deep_equal`, carry the same declarations, and serialise identically, because comparison and
+    serialisation are functions of the erased tree (`HTree.erase`; C13, C16). -/
+theorem C20_orders_agree_at_partial (f : Forest) (P1 P2 : Program) (r1 r2 : Nat) (hfl : FlagsOk f)
+    (hinv1 : InvAlong { forest := f } P1) (hinv2 : InvAlong { forest := f } P2)
+    (hsc1 : inScope { forest := f } P1 = true) (hsc2 : inScope { forest := f } P2 = true)
+    (hok1 : (runImpl { forest := f } P1).2 = .ok) (hok2 : (runImpl { forest := f } P2).2 = .ok)
+    (s1 s2 : State) (h1 : runSpec { forest := f } P1 = some s1) (h2 : runSpec { forest := f } P2 = some s2)
+    (a b : Nat) (ha : s1.env[r1]? = some a) (hb : s2.env[r2]? = some b)
+    (heq : s1.forest.treeAt a = s2.forest.treeAt b) :
+    (runImpl { forest := f } P1).1.env[r1]? = some a ∧ (runImpl { forest := f } P2).1.env[r2]? = some b ∧
+      (runImpl { forest := f } P1).1.forest.treeAt a = (runImpl { forest := f } P2).1.forest.treeAt b := by
+  have e1 := run_refine P1 _ hinv1 hfl hsc1 hok1
+  have e2 := run_refine P2 _ hinv2 hfl hsc2 hok2
+  rw [h1] at e1
+  rw [h2] at e2
+  rw [← Option.some.inj e1, ← Option.some.inj e2]
+  exact ⟨ha, hb, heq⟩
+
+/-- **Closed form.**  `Prog.Constructs f P root d`: the specification accepts `P` and, at the end, the
+    node created by the `root`-th `create` step carries `treeOf d` (said without reference to the
+    implementation).  Then on the implementation that node carries `treeOf d` too: every
+    construction of `d`, in any order, with the text supplied in any split into pieces, yields
+    `treeOf d`.  (`C20_topdown` / `C20_bottomup` / `C20_rtl` are three particular orders.) -/
+theorem C20_every_construction_partial (f : Forest) (P : Program) (root : Nat) (d : FDocument)
+    (hc : Constructs f P root d) (hfl : FlagsOk f) (hinv : InvAlong { forest := f } P)
+    (hsc : inScope { forest := f } P = true) (hok : (runImpl { forest := f } P).2 = .ok) :
+    ∃ h, (runImpl { forest := f } P).1.env[root]? = some h ∧
+      (runImpl { forest := f } P).1.forest.treeAt h = some (treeOf d) := by
+  obtain ⟨s', hs, h, he, ht⟩ := hc
+  have e := run_refine P _ hinv hfl hsc hok
+  rw [hs] at e
+  rw [← Option.some.inj e]
+  exact ⟨h, he, ht⟩
+
+/-- … and when the specification's final store is the store before plus exactly `treeOf d`
+    (nothing left over), so is the implementation's. -/
+theorem C20_every_clean_construction_partial (f : Forest) (P : Program) (d : FDocument)
+    (hc : ConstructsClean f P d) (hfl : FlagsOk f) (hinv : InvAlong { forest := f } P)
+    (hsc : inScope { forest := f } P = true) (hok : (runImplF f P).2 = .ok) :
+    (runImplF f P).1.content = f.content ++ [treeOf d] := by
+  obtain ⟨s', hs, hcont⟩ := hc
+  have := C20_any_order_content_partial f P hinv hfl hsc hok
+  unfold runSpecF at this
+  rw [hs] at this
+  rw [← Option.some.inj this]
+  exact hcont
+
+/-! ### The refusal side -/
+
+/-- The specification's well-formedness test of a move IS xot's argument check
+    (`add_structure_check`, for `insert_*` also `sibling_reference_check`), as a Boolean. -/
+theorem C20_moveOk_is_the_check (f : Forest) (d : Dest) (n : Nat) :
+    moveOk d n f = implCheck f d n := moveOk_eq f d n
+
+/-- A move the specification calls ill-formed is refused by the implementation with
+    `InvalidOperation` and an unchanged store; a move answered `ok` is well-formed. -/
+theorem C20_illformed_move_refused (f : Forest) (d : Dest) (n : Nat) (h : moveOk d n f = false) :
+    moveImpl f d n = (f, .err .invalidOperation) :=
+  moveImpl_refused (by rw [← moveOk_eq]; exact h)
+
+theorem C20_ok_move_wellformed (f : Forest) (d : Dest) (n : Nat) (h : (moveImpl f d n).2 = .ok) :
+    moveOk d n f = true := by
+  rw [moveOk_eq]; exact implCheck_of_ok h
+
+/-- A program the specification rejects is not carried out by the implementation: some step is not
+    answered `ok`. -/
+theorem C20_illformed_program_refused_partial (s : State) (P : Program) (hinv : InvAlong s P)
+    (hfl : FlagsOk s.forest) (hsc : inScope s P = true) (h : runSpec s P = none) :
+    (runImpl s P).2 ≠ .ok := by
+  intro hok
+  rw [run_refine P s hinv hfl hsc hok] at h
+  cases h
+
+/-! ### Non-vacuity: `<a c="v">x<b/>yz</a>` by two different programs
+
+  `progA`: top-down, left to right, the attribute set first, `yz` delivered as `y` then `z`.
+  `progB`: the pieces first (`z` before `y`), the element `a` created third, `y` inserted between
+  `<b/>` and `z` (it merges into `z`: the LATER node survives), `x` prepended last, the attribute
+  attached as a node at the very end. -/
+
+def progA : Program :=
+  [.create (.element 2), .setAttribute 0 4 ['v'], .create (.text ['x']), .append 0 1,
+   .create (.element 3), .append 0 2, .create (.text ['y']), .append 0 3, .create (.text ['z']), .append 0 4]
+
+def progB : Program :=
+  [.create (.text ['z']), .create (.element 3), .create (.element 2), .append 2 1,
+   .create (.text ['y']), .append 2 0, .insertAfter 1 3, .create (.text ['x']), .prepend 2 4,
+   .create (.attribute 4 ['v']), .anyAppend 2 5]
+
+/-- Decidable form of `InvAlong`, for closed examples. -/
+def invAlongB (s : State) : Program → Bool
+  | [] => s.forest.inv
+  | st :: rest =>
+    s.forest.inv &&
+      (match stepImpl s st with
+       | (s', .ok) => invAlongB s' rest
+       | _ => true)
+
+theorem invAlong_of_bool : ∀ (P : Program) (s : State), invAlongB s P = true → InvAlong s P
+  | [], s, h => (Forest.inv_iff _).1 h
+  | st :: rest, s, h => by
+    simp only [invAlongB, Bool.and_eq_true] at h
+    refine ⟨(Forest.inv_iff _).1 h.1, ?_⟩
+    cases hst : stepImpl s st with
+    | mk s' r =>
+      have h2 := h.2
+      rw [hst] at h2
+      cases r with
+      | ok => exact invAlong_of_bool rest s' h2
+      | err e => trivial
+      | panic => trivial
+
+/-- The hypotheses of the theorems above hold for both programs from the empty store; both are
+    accepted by the specification, end in different states (other names survive) with the same
+    content `<a c="v">x<b/>yz</a>`; and the implementation does what the theorems say. -/
+example :
+    invAlongB { forest := Forest.init } progA = true ∧ invAlongB { forest := Forest.init } progB = true ∧
+    inScope { forest := Forest.init } progA = true ∧ inScope { forest := Forest.init } progB = true ∧
+    (runImplF Forest.init progA).2 = .ok ∧ (runImplF Forest.init progB).2 = .ok ∧
+    (runSpecF Forest.init progA).map Forest.content =
+      some [.node (.element 2) [.node (.attribute 4 ['v']) [], .node (.text ['x']) [], .node (.element 3) [],
+        .node (.text ['y', 'z']) []]] ∧
+    (runSpecF Forest.init progB).map Forest.content = (runSpecF Forest.init progA).map Forest.content ∧
+    runSpecF Forest.init progB ≠ runSpecF Forest.init progA ∧
+    (runImplF Forest.init progA).1.content = (runImplF Forest.init progB).1.content := by
+  decide +kernel
+
+example : FlagsOk Forest.init := Or.inl rfl
+
+/-- A program the specification rejects (an element appended to itself), refused by the model. -/
+example : runSpec { forest := Forest.init } [.create (.element 2), .append 0 0] = none ∧
+    (runImpl { forest := Forest.init } [.create (.element 2), .append 0 0]).2 = .err .invalidOperation := by
+  decide +kernel
 
 end XotModel.Props
